@@ -58,13 +58,22 @@ def unknown_keys(prog):
                 if b not in keys:
                     cands.append(b)
         else:
+            nstr = 2
+            if kf["k"] == "dyn" and keys:
+                # a table key with the effective pad byte of FIXED strings stuck on its padded side: for a dynamic string
+                # that is another value, hence absent from the table (a decoder that trims keys would find the table key)
+                padb = {"0": 0x30, "nul": 0, "sp": 0x20}.get(prog["opts"].get("padchar", ""), 0x20)
+                b = ([padb] + keys[0]) if prog["opts"].get("padleft") == "true" else (keys[0] + [padb])
+                if b not in keys:
+                    cands.append(b)
+                    nstr = 3
             for s in (b"ZZ", b"q", b"A"):
                 b = list(s)
                 if kf["k"] == "fix":
                     b = b[:kf["n"]]
                 if b not in keys and b not in cands:
                     cands.append(b)
-        for b in cands[:2]:
+        for b in cands[:(2 if kf["k"] == "int" else nstr)]:
             out.append((f["name"], b, f["pairs"][0]["pkt"]))
     return out
 
